@@ -12,15 +12,22 @@ from dateutil.relativedelta import relativedelta
 
 import finam as fm
 
+from ..fmutil import limited
+
 KINDS = ["callback", "consumer", "writer", "generator", "trigger"]
-STEPS = [["days", 1], ["days", 2], ["days", 7], ["hours", 36], ["months", 1], ["months", 1], ["months", 3], ["years", 1]]
+STEPS = [["days", 1], ["days", 2], ["days", 7], ["hours", 36], ["months", 1], ["months", 1], ["months", 3], ["years", 1],
+         ["milliseconds", 400], ["microseconds", 1500], ["seconds", 90]]   # sub-second steps: times keep their microseconds
 STARTS = [[2000, 1, 1], [2000, 1, 15], [2000, 1, 28], [2000, 1, 29], [2000, 1, 30], [2000, 1, 31], [2000, 2, 29],
           [2001, 5, 31], [1999, 12, 31], [2000, 8, 31]]
 
 
 def gen(rng):
     return {"part": "announce", "comp": rng.choice(KINDS), "step": rng.choice(STEPS), "start": rng.choice(STARTS),
-            "updates": rng.randint(2, 9), "src_step_days": rng.choice([1, 1, 2, 5])}
+            "updates": rng.randint(2, 9), "src_step_days": rng.choice([1, 1, 2, 5]),
+            "late_days": rng.choice([0, 0, 0, 2, 3]),   # the component may start later than the composition (its source)
+            "end_extra_us": rng.choice([0, 0, 1, 400, 999]),
+            # the source's step may be a day divided by 7, 11, 13, ...: its multiples fall a few microseconds short of the day
+            "src_div": rng.choice([None, None, 7, 11, 13, 19])}  # the end time may lie a few microseconds behind a point of the step grid
 
 
 def _step(s):
@@ -28,10 +35,17 @@ def _step(s):
 
 
 def run(case):
-    start = dt.datetime(*case["start"])
+    start0 = dt.datetime(*case["start"])
+    start = start0 + dt.timedelta(days=case.get("late_days", 0))
     step = _step(case["step"])
     info = fm.Info(time=None, grid=fm.NoGrid(), units="")
-    src = fm.components.CallbackGenerator({"Out": (lambda t: float(t.toordinal()), info)}, start, dt.timedelta(days=case["src_step_days"]))
+    src_step = dt.timedelta(days=case["src_step_days"])
+    if case.get("src_div"):
+        src_step = dt.timedelta(days=1) / case["src_div"]
+    if case["step"][0] in ("milliseconds", "microseconds", "seconds"):
+        src_step = step                      # (a source on the same fine clock; no day-long head start to walk through)
+        start = start0
+    src = fm.components.CallbackGenerator({"Out": (lambda t: float(t.toordinal()), info)}, start0, src_step)
     k = case["comp"]
     tmp = None
     if k == "callback":
@@ -49,7 +63,12 @@ def run(case):
     log = []
     orig = c.update
 
+    budget = [40 * case["updates"] + 200]
+
     def update():
+        budget[0] -= 1
+        if budget[0] < 0:
+            raise RuntimeError("the run does not come to an end: far more updates than the end time allows")
         ann = c.next_time
         log.append(["announced", ann])
         orig()
@@ -70,12 +89,15 @@ def run(case):
         out >> c.inputs["In"]
     res = {"error": None}
     try:
-        comp.connect(start)
+        limited(30, comp.connect, start0)
         del log[:]           # the connect phase pulls at the start time
         end = start
         for _ in range(case["updates"]):
             end = end + step
-        comp.run(end_time=end)
+        end = end + dt.timedelta(microseconds=case.get("end_extra_us", 0))
+        res["end"] = end.isoformat()
+        limited(30, comp.run, end_time=end)
+        res["final"] = [x.time.isoformat() for x in comps]
     except Exception as e:  # noqa
         res["error"] = f"{type(e).__name__}: {str(e)[:200]}"
     finally:
@@ -89,6 +111,10 @@ def run(case):
 def oracle(case, impl):
     if impl["error"]:
         return ("a composition of the package's own components with calendar or fixed steps runs", {"error": impl["error"]})
+    late = [t for t in impl.get("final", []) if t < impl["end"]]
+    if late:
+        return ("run(end_time) returns with every time-stepped component at or beyond end_time",
+                {"end_time": impl["end"], "component_times": impl["final"]})
     ann = None
     n = 0
     for what, t in impl["log"]:
